@@ -1,5 +1,6 @@
 From Coq Require Import Extraction ExtrOcamlBasic.
-From TK Require Import Spe_Model Spe_Spec Spe_Exec Spe_Fa_Exec Spe_Des_Model.
+From TK Require Import Spe_Model Spe_Spec Spe_Exec Spe_Fa_Exec Spe_Des_Model Spe_Sched_Model.
 Extraction "c19_model.ml" spe_indices spe_log_check spe_log_check_des clamp_loop draw draw_old is_perm_b
   rp_embed_qc rp_embed_des_qc spe_step_qc qc_of qc_num qc_den fa_embed_qc fa_embed_des_qc fa_observe_qc
-  qc_inverse_opt inv_contract_b polar_fill max_loop_calls.
+  qc_inverse_opt inv_contract_b polar_fill max_loop_calls
+  spe_iterations schedule_check spe_schedule spe_schedule_split schedule_ok_b.
